@@ -58,6 +58,18 @@ def clientInit (cfg : Cfg) (cs : List Client) (i : Nat) (shared : Bool) : List C
         cs1.map (fun c => if isOtherNormal i c then closeClient c else c)
     else cs1
 
+/-- the three sharing switches of `rfbProcessArguments` (cargs.c): each flag, when present, sets its
+field to TRUE; nothing ever clears one -/
+def parseArgs (cfg : Cfg) : List String → Cfg
+  | [] => cfg
+  | a :: rest =>
+    let cfg :=
+      if a = "-alwaysshared" then { cfg with always := true }
+      else if a = "-nevershared" then { cfg with never := true }
+      else if a = "-dontdisconnect" then { cfg with dont := true }
+      else cfg
+    parseArgs cfg rest
+
 inductive Op where
   | connect (id : Nat) (reverse : Bool)
   | init (id : Nat) (shared : Bool)
